@@ -1,7 +1,9 @@
 import JSight.Model.Context
 /-!
 Model of `core/compile_core_macro.go` (`collectMacro`, `addMacro`), `core/compile_core.go`
-(`checkMacroForRecursion`, `findPaste`, after the repair F6) and `core/compile_core_paste.go`
+(`checkMacroForRecursion`, `findPaste`, after the repair F6 and after the "macro not found" repair: a PASTE
+of an undefined macro met by the recursion check — which walks the body of every MACRO, pasted or not — is an
+error; the order of the tests is: empty name, recursion, visited, not found) and `core/compile_core_paste.go`
 (`processPaste`, `processDirective`, `processPasteDirective`).
 Enum-rule collection is not part of this model (since F39 it happens after the expansion, over the expanded forest).
 -/
@@ -49,7 +51,7 @@ mutual
         else
           match ms.get? d.name with
           | some m => findPaste ms target fuel m (d.name :: visited)
-          | none => .ok (d.name :: visited)
+          | none => .error (.notFound d.id)
       else findPasteList ms target fuel kids visited
   def findPasteList (ms : Macros) (target : Nat) : Nat → List Tree → List Nat → Except PasteErr (List Nat)
     | 0, _, _ => .error .fuel
